@@ -9,6 +9,7 @@ DSA x, FIPS nonces, RSA/DSA generation, blinding factors) are driven with bounda
 accept/reject edge and compared with a plain reference rejection sampler on the same bytes.
 """
 import itertools
+import time
 from fractions import Fraction
 
 from ..common import Acc, short, seeded, seeded_int, SEED
@@ -808,6 +809,7 @@ def worker(jobs):
         try:
             for job in jobs:
                 kind = job[0]
+                t0 = time.time()
                 if kind == "single":
                     check_single(job[1], job[2], job[3], job[4], acc)
                 elif kind == "tree":
@@ -816,12 +818,16 @@ def worker(jobs):
                     sharded_part(job[1], job[2], acc)
                 elif kind == "bigtree":
                     tree_part(job[1], job[2], job[3], acc)
+                if kind != "consumer":
+                    acc.n["cpu_s/" + job[1][0]] = acc.n.get("cpu_s/" + job[1][0], 0) + time.time() - t0
             _Ctl.trip = None
         finally:
             _Ctl.trip = None
     for job in jobs:                 # consumers install their own tripwire/recorder
         if job[0] == "consumer":
+            t0 = time.time()
             C.check_consumer(job[1], acc)
+            acc.n["cpu_s/consumers"] = acc.n.get("cpu_s/consumers", 0) + time.time() - t0
     return acc
 
 
@@ -906,6 +912,7 @@ def run(ctx):
         "split_three_byte_attempt_trees": n.get("sharded_configs", 0),
         "recorded_internal_integer_draws_checked": n.get("recorded_integer_draws", 0),
         "rsa_prime_candidates_checked": n.get("rsa_candidates_checked", 0),
+        "cpu_seconds_by_part": {k[6:]: round(v, 1) for k, v in sorted(n.items()) if k.startswith("cpu_s/")},
         "grid": {
             "Integer.random": "exact_bits/max_bits 1..16 x Native/Custom/GMP: every tape (256 or 65536), no rejection possible",
             "Integer.random_range": "min 0..3 x max-min 1..300 x {max_inclusive, max_exclusive} x 3 back-ends for ranges of <= 8 bits: every "
